@@ -32,6 +32,17 @@ check("C02",
       "TLA+ wire-format oracle validated by TLC + trace validation of real encoder output, TLC-enumerated messages replayed into the encoder",
       "DESIGN.md section 7 C02")
 
+check("C16",
+      "TLC checks the TXT model (Txt.tla: Accept, EncodeTxt, DecodeTxt, first-key-wins, case-insensitive lookup) exhaustively over a "
+      "key/value pool with a scaled length limit, proving the round-trip, chunk-bound and totality theorems on the model; the enumerated "
+      "lists are replayed through every input type of ServiceInfo::new and, with seeded random lists around the real 255-byte limit and "
+      "enumerated + random byte strings into the decoder, every result (acceptance, RDATA bytes, browser-side decode, lookups) is "
+      "validated by TLC against the same operators.",
+      "Trusts TLC and the facade (generate_txt / decode_txt pass-throughs); ASCII-only case folding in the spec; the end-to-end leg "
+      "(registering daemon -> browsing daemon) is validated in the daemon-level browse traces.",
+      "TLA+ functional model checked by TLC + TLC-generated cases replayed into ServiceInfo::new + trace validation",
+      "DESIGN.md section 7 C16")
+
 def hooks_commits():
     try:
         out = subprocess.run(["git", "-C", "/repo", "log", "--format=%h %s"], stdout=subprocess.PIPE, text=True).stdout
